@@ -117,7 +117,7 @@ def check_cli(smt2: str, which='cvc5', timeout_s=30):
         os.unlink(path)
 
 
-PORTFOLIO_MS = [int(x) for x in os.environ.get('PYVC_PORTFOLIO_MS', '3000,3000,5000,5000,10000').split(',')]
+PORTFOLIO_MS = [int(x) for x in os.environ.get('PYVC_PORTFOLIO_MS', '4000,4000,8000,8000,20000').split(',')]
 
 
 def discharge(ob, cross_check=False):
